@@ -612,6 +612,12 @@ func directivePairObligations(c *Ctx) {
 		if !ok || !DerivesLocal(ia.X, func(v ssa.Value) bool { p, ok := v.(*ssa.Parameter); return ok && p == fi.Params[0] }) {
 			return
 		}
+		// an access that every path reaches only after the test (the store of the verdict) is not a new pair
+		for _, m := range matches {
+			if InstrDominates(m, ia) && ia.Block() != m.Block() || ia.Block() == m.Block() && InstrIndex(m) < InstrIndex(ia) {
+				return
+			}
+		}
 		nElems++
 		t, path := PathAvoiding(fi, ia, func(x ssa.Instruction) bool {
 			if _, isRet := x.(*ssa.Return); isRet {
